@@ -902,7 +902,10 @@ func c11ZeroSize(t *c11Ty) bool {
 }
 
 // c11SeqOfZeroSize reports whether t contains a slice whose elements may encode to nothing
-// (decoding such a slice loops `length` times without reading: excluded from generation).
+// (Vec<()>, [][0]byte, structs whose fields are all ignored).  Decoding such a slice loops `length`
+// times without reading, so a MUTATED length can spin for 2^64 rounds: these types are generated
+// where the input is an honest encoding (C11: e, mrt, menc) and not where lengths are damaged (C12:
+// hand-picked corpus lines only).
 func c11SeqOfZeroSize(t *c11Ty) bool {
 	if t.kind == "seq" && c11ZeroSize(t.sub[0]) {
 		return true
@@ -915,10 +918,41 @@ func c11SeqOfZeroSize(t *c11Ty) bool {
 	return false
 }
 
-func c11GenTopTy(r *vhRng) *c11Ty {
+// c11ZeroElemDescs are element types whose SCALE encoding is empty.
+var c11ZeroElemDescs = []string{"unit", "unit", "arr0(u8)", "arr0(u64)", "st()", "st(u8@-)", "st(u8@-,unit)",
+	"arr2(unit)", "st(unit,arr0(bool))"}
+
+// c11GenZeroSeqTy draws a type around a slice of zero-width elements: the bare slice, nested slices,
+// a struct ending in such a slice, an option / array / result of it.
+func c11GenZeroSeqTy(r *vhRng) *c11Ty {
+	el := c11ZeroElemDescs[r.Intn(len(c11ZeroElemDescs))]
+	sq := "seq(" + el + ")"
+	switch r.Intn(9) {
+	case 0, 1, 2:
+		return c11ParseTy(sq)
+	case 3:
+		return c11ParseTy("seq(" + sq + ")")
+	case 4:
+		return c11ParseTy("st(u8," + sq + ")")
+	case 5:
+		return c11ParseTy("st(" + c11GenTy(r, 1, false).String() + "@1," + sq + "@2,opt(unit)@0)")
+	case 6:
+		return c11ParseTy("opt(" + sq + ")")
+	case 7:
+		return c11ParseTy("arr2(" + sq + ")")
+	default:
+		return c11ParseTy("res(" + sq + ",opt(unit))")
+	}
+}
+
+// c11GenTopTy draws the type of a case; zeroSeq admits slices of zero-width elements.
+func c11GenTopTy(r *vhRng, zeroSeq bool) *c11Ty {
+	if zeroSeq && r.Chance(1, 12) {
+		return c11GenZeroSeqTy(r)
+	}
 	for {
 		t := c11GenTy(r, 1+r.Intn(3), true)
-		if !c11SeqOfZeroSize(t) {
+		if zeroSeq || !c11SeqOfZeroSize(t) {
 			return t
 		}
 	}
